@@ -355,7 +355,7 @@ struct SSGen {
         if (on("choose")) perNode += "<o f=\"choose\" n=\"{@id}\"><xsl:choose><xsl:when test=\"@v &gt; 20\">big</xsl:when><xsl:when test=\"@v &lt; 0\">neg</xsl:when><xsl:when test=\"not(@v)\">none</xsl:when><xsl:otherwise>small</xsl:otherwise></xsl:choose></o>";
         if (on("elemattr")) perNode += "<o f=\"elemattr\" n=\"{@id}\"><xsl:element name=\"{concat('g', count(*))}\" namespace=\"urn:x-gen-{@k}\"><xsl:attribute name=\"q:at\" namespace=\"urn:x-q\"><xsl:value-of select=\"@v\"/></xsl:attribute><xsl:attribute name=\"plain\">p<xsl:value-of select=\"@k\"/></xsl:attribute></xsl:element></o>";
         if (on("attrset")) { top += "<xsl:attribute-set name=\"as1\"><xsl:attribute name=\"s1\">one</xsl:attribute><xsl:attribute name=\"s2\"><xsl:value-of select=\"@id\"/></xsl:attribute></xsl:attribute-set><xsl:attribute-set name=\"as2\" use-attribute-sets=\"as1\"><xsl:attribute name=\"s1\">over</xsl:attribute></xsl:attribute-set>";
-            perNode += "<o f=\"attrset\" n=\"{@id}\"><w xsl:use-attribute-sets=\"as2\" s3=\"lit\"/><xsl:element name=\"w2\" use-attribute-sets=\"as1\"/><xsl:element name=\"{concat(substring('1', 1, number(@v = 3 or @k = 'k2')), 'w3')}\" use-attribute-sets=\"as2\"><xsl:attribute name=\"own\">o</xsl:attribute>in<xsl:element name=\"w4\" use-attribute-sets=\"as1\"/></xsl:element></o>"; }
+            perNode += "<o f=\"attrset\" n=\"{@id}\"><w xsl:use-attribute-sets=\"as2\" s3=\"lit\"/><xsl:element name=\"w2\" use-attribute-sets=\"as1\"/><xsl:element name=\"{concat(substring('1', 1, number(@v = 3 or @k = 'k2')), 'w3')}\" use-attribute-sets=\"as2\"><xsl:attribute name=\"own\">o</xsl:attribute>in<xsl:element name=\"w4\" use-attribute-sets=\"as1\"/></xsl:element><xsl:element name=\"w6\" use-attribute-sets=\"as1\"><xsl:for-each select=\"@k | text()[1] | comment()[1] | processing-instruction()[1]\"><xsl:copy use-attribute-sets=\"as2\"/></xsl:for-each>tail</xsl:element></o>"; }   /* w6: xsl:copy with attribute sets on nodes that are not elements (the sets do not apply), inside an instruction that uses them */
         if (on("lre")) perNode += "<o f=\"lre\" n=\"{@id}\"><p1:lit a=\"{@k}-{@v}\" b=\"{{x}}\" xmlns:zz=\"urn:x-zz\"><zz:in/></p1:lit></o>";
         if (on("avt-ns")) perNode += "<o f=\"avt-ns\" n=\"{@id}\"><xsl:element name=\"px:e\" namespace=\"{concat('urn:x-dyn-', namespace-uri())}\"/><xsl:element name=\"{name()}\"/></o>";
         if (on("message")) perNode += "<xsl:if test=\"@v = 7\"><xsl:message>note <xsl:value-of select=\"@id\"/></xsl:message></xsl:if>";
@@ -400,8 +400,9 @@ struct SSGen {
         // literal result elements in an aliased namespace
         if (on("nsalias")) { top += "<xsl:namespace-alias stylesheet-prefix=\"ax\" result-prefix=\"ar\"/>"; perNode += "<xsl:if test=\"count(*) = 1\"><o f=\"nsalias\" n=\"{@id}\"><ax:gen ax:at=\"{@k}\" plain=\"1\"><ax:inner/><xsl:value-of select=\"name()\"/></ax:gen></o></xsl:if>"; }
         // parameters passed through apply-templates and call-template, defaults, shadowing
+        /* with the gate variable declared, a parameter after the result tree fragment refers to it: an abort lands between two xsl:with-param of one call */
         if (on("withparam")) { extraTemplates += "<xsl:template match=\"*\" mode=\"wp\"><xsl:param name=\"a\" select=\"'da'\"/><xsl:param name=\"b\"><dflt/></xsl:param><xsl:param name=\"depth\" select=\"0\"/><xsl:value-of select=\"concat('[', $a, '/', count(exsl:node-set($b)/*), '/', $depth, ']')\"/><xsl:if test=\"$depth &lt; 3\"><xsl:apply-templates select=\"*[1]\" mode=\"wp\"><xsl:with-param name=\"a\" select=\"concat($a, @k)\"/><xsl:with-param name=\"depth\" select=\"$depth + 1\"/><xsl:with-param name=\"unused\" select=\"//*\"/></xsl:apply-templates></xsl:if></xsl:template>";
-            perNode += "<o f=\"withparam\" n=\"{@id}\"><xsl:apply-templates select=\".\" mode=\"wp\"><xsl:with-param name=\"b\"><x/><y/></xsl:with-param></xsl:apply-templates>|<xsl:apply-templates select=\"*[2]\" mode=\"wp\"/></o>"; }
+            perNode += "<o f=\"withparam\" n=\"{@id}\"><xsl:apply-templates select=\".\" mode=\"wp\"><xsl:with-param name=\"b\"><x/><y/></xsl:with-param>" + std::string((c.on.count("gate") || c.on.count("num-gate")) ? "<xsl:with-param name=\"g\" select=\"$GATE\"/>" : "") + "</xsl:apply-templates>|<xsl:apply-templates select=\"*[2]\" mode=\"wp\"/></o>"; }
         // format-number patterns: negative sub-pattern, percent, per-mille, quoted literals, many digits
         if (on("fmtnum-pat")) perNode += o("fmtnum-pat", vo("format-number(@v - 20.5, '#,##0.0#;(#,##0.0#)')") + "|" + vo("format-number(@v div 40, '#0.0%')") + "|" + vo("format-number(@v div 40, '#0.0&#x2030;')") + "|" + vo("format-number(@v, &quot;000'x'&quot;)") + "|" + vo("format-number(@v * 1234567.891, '###,###,##0.000000')") + "|" + vo("format-number(@v, '#')") + "|" + vo("format-number(-0.4, '0')") + "|" + vo("format-number(1 div 0, '0')") + "|" + vo("format-number(@v, '0.0;-0.0')"));
         // document() with a base node, with a node-set, and the stylesheet itself
